@@ -125,6 +125,9 @@ def cases():
     out.append(Case('file created in an empty directory and deleted by a later patch', dict(F, d=(b'', 'dir')), {'p0.patch': create(b'd/n', [b'n1', b'n2']), 'p1.patch': delete(b'd/n', [b'n1', b'n2']), 'p2.patch': mod(b'f', b'f', 1, b'F1')},
                     ['p0.patch', 'p1.patch', 'p2.patch'], ['file-created-and-deleted-in-a-directory-that-was-empty'], first_fail=None, props=('C09', 'C06')))
 
+    out.append(Case('file created two levels below an empty directory and deleted by a later patch', dict(F, d=(b'', 'dir')), {'p0.patch': create(b'd/e/n', [b'n1', b'n2']), 'p1.patch': delete(b'd/e/n', [b'n1', b'n2']), 'p2.patch': mod(b'f', b'f', 1, b'F1')},
+                    ['p0.patch', 'p1.patch', 'p2.patch'], ['file-created-and-deleted-in-a-directory-that-was-empty', 'new-directory-in-between'], first_fail=None, props=('C09', 'C06')))
+
     # ---- known limitation (KF-03): a name that is a file for one patch and a directory for another, within one push
     out.append(Case('file a deleted, then a/b created', dict(F, a=(b'x\ny\n', 0o644)), {'p0.patch': delete(b'a', [b'x', b'y']), 'p1.patch': create(b'a/b', [b'n1', b'n2'])}, ['p0.patch', 'p1.patch'],
                     ['name-is-file-and-directory-within-one-push'], first_fail=None, props=('C09',)))
